@@ -138,6 +138,7 @@ def seg_part(pid, tier, out):
     out.setdefault("extra_cov", {})["interrupted_traces_validated"] = res.get("ntraces", 0)
 
 
+EXTRA.setdefault("C05", []).append(seg_part)     # pausing and resuming must not block anything either
 EXTRA.setdefault("C12", []).append(seg_part)
 EXTRA.setdefault("C13", []).append(seg_part)
 
